@@ -779,7 +779,10 @@ func prop(c *Case, st *stats) *vlib.Failure {
 	// stored fields
 	ra, rb := sa.storedSkipReason(), sb.storedSkipReason()
 	if ra != "" || rb != "" {
-		st.storedSkip = ra + rb
+		st.storedSkip = ra
+		if ra == "" {
+			st.storedSkip = rb
+		}
 		return nil
 	}
 	var da, db []string
@@ -1015,7 +1018,7 @@ func TestC08Pairs(t *testing.T) {
 	ev.Assume("builds with merge policy none (MergePlanOptions.MaxSegmentSize=1, MinSegmentsForInMemoryMerge=1<<30) hold one segment per batch with documents: asserted on every such build (key layout-not-enforced)")
 	ev.Assume("numeric range queries use whole-number bounds at least 2 apart or infinite (narrow ranges belong to the known range-enumeration blow-up of C10)")
 	ev.Assume("stored fields of version-2 segments are not read while a writer that may merge is open (third-party race, C15)")
-	vlib.Check(t, 40, 600, func(rt *rapid.T) {
+	vlib.Check(t, 40, 800, func(rt *rapid.T) {
 		c := genCase(rt, 10)
 		runPair(rt, &c)
 	})
